@@ -256,7 +256,22 @@ func Boundary(r *rand.Rand) []byte {
 func FarPointer(r *rand.Rand) []byte {
 	var out []byte
 	var starts []int // label starts of complete, pointer-free names
-	for len(out) < 260+r.IntN(200) {
+	// mostly a few hundred octets; now and then long enough for targets beyond 1023, 4095 and up to the largest offset
+	// a pointer can name (16383)
+	total := 260 + r.IntN(200)
+	switch r.IntN(12) {
+	case 0, 1:
+		total = 1030 + r.IntN(500)
+	case 2:
+		total = 4100 + r.IntN(300)
+	case 3:
+		total = 16200 + r.IntN(180)
+	}
+	far := 256
+	if total > 1000 {
+		far = total * 3 / 4
+	}
+	for len(out) < total {
 		nl := 1 + r.IntN(4)
 		for i := 0; i < nl; i++ {
 			l := 1 + r.IntN(20)
@@ -271,7 +286,7 @@ func FarPointer(r *rand.Rand) []byte {
 	for k := 1 + r.IntN(3); k > 0; k-- {
 		t := starts[r.IntN(len(starts))]
 		if r.IntN(4) != 0 { // prefer far targets
-			for tries := 0; tries < 8 && t < 256; tries++ {
+			for tries := 0; tries < 8 && t < far; tries++ {
 				t = starts[r.IntN(len(starts))]
 			}
 		}
